@@ -171,8 +171,13 @@ impl<W: Write> ProtocolWriter<W> for DefaultProtocolWriter<W> {
             self.write_type_and_value(FSM_PROTOCOL_TYPE_INT_52BIT, value, 52);
         } else if value < (1u64 << 60) {
             self.write_type_and_value(FSM_PROTOCOL_TYPE_INT_60BIT, value, 60);
-        } else {
-            self.write_type_and_value(FSM_PROTOCOL_TYPE_INT_68BIT, value, 64);
+        } else if self.ok {
+            // 68 bit: an empty high nibble, followed by all 8 bytes of the value.
+            let mut r = self.writer.write_u8(FSM_PROTOCOL_TYPE_INT_68BIT);
+            if r.is_ok() {
+                r = self.writer.write_all(&value.to_be_bytes());
+            }
+            self.eval_result(r);
         }
     }
 
